@@ -589,7 +589,33 @@ func vADSGen(r *vRand, tier string, idx int) (cfg []int64, ops [][]int64) {
 	n := 40 + r.Intn(80)
 	ver, nonce := int64(0), int64(0)
 	ops = append(ops, []int64{3})
+	// scenario "type without subscriptions across a reconnect": subscribe T, get a response (nonce
+	// recorded), unsubscribe everything of T, stream error, new stream, subscribe T again: the first
+	// request for T on the new stream must carry an empty nonce.  Robust form (works from any state):
+	// runs right after the first stream in every fourth case and at a random position in half of the others.
+	scenario := func() {
+		t := int64(r.Intn(3))
+		nm := int64(r.Intn(4))
+		ver++
+		nonce++
+		ops = append(ops, []int64{3}, []int64{7}, []int64{1, t, nm}, []int64{5, t, ver, nonce, nm, 1, 0}, []int64{7})
+		for k := int64(0); k < 4; k++ {
+			ops = append(ops, []int64{2, t, k})
+		}
+		ops = append(ops, []int64{6}, []int64{3}, []int64{1, t, int64(r.Intn(4))})
+	}
+	at := -1
+	if idx%4 == 1 {
+		scenario()
+	} else if r.Chance(50) {
+		at = 10 + r.Intn(n-10)
+	}
 	for len(ops) < n {
+		if at >= 0 && len(ops) >= at {
+			at = -1
+			scenario()
+			continue
+		}
 		switch x := r.Intn(100); {
 		case x < 22:
 			ops = append(ops, []int64{1, int64(r.Intn(3)), int64(r.Intn(4))})
